@@ -84,7 +84,9 @@ impl Env {
     /// snapshots sorted by time then id
     pub fn snapshots(&self) -> Result<Vec<SnapshotFile>, String> {
         let mut s = self.open()?.get_all_snapshots().map_err(|e| format!("get_all_snapshots: {}", errstr(&e)))?;
-        s.sort_by(|a, b| a.time.cmp(&b.time).then(a.id.cmp(&b.id)));
+        // order that does not depend on ids (ids differ between twin repositories)
+        let label = |x: &SnapshotFile| format!("{}:{}", x.hostname, x.tags.iter().cloned().collect::<Vec<_>>().join(","));
+        s.sort_by(|a, b| a.time.cmp(&b.time).then(label(a).cmp(&label(b))).then(a.id.cmp(&b.id)));
         Ok(s)
     }
 }
